@@ -161,9 +161,11 @@ pub fn app_types(app: &[String]) -> Vec<u64> {
         .collect()
 }
 
+/// microseconds (floor) and exactness; clamped to 2*10^9 so that every number written to a trace fits
+/// TLC's 32-bit integers (the monitors treat such values as not representable)
 fn us(d: Duration) -> (i64, bool) {
     let ns = d.as_nanos();
-    ((ns / 1000) as i64, ns % 1000 == 0)
+    ((ns / 1000).min(2_000_000_000) as i64, ns % 1000 == 0)
 }
 
 impl Driver {
@@ -475,7 +477,7 @@ impl Driver {
         let est = match &s.rtt {
             Some(r) => {
                 let ns = r.rto.as_nanos();
-                json!({"rto":(ns/1000) as i64,"x":ns%1000==0,
+                json!({"rto":(ns/1000).min(2_000_000_000) as i64,"x":ns%1000==0,
                        "srtt":us(r.srtt).0,"rttvar":us(r.rttvar).0,
                        "last_req":s.last_request.map(|i| self.rel_us(i)).unwrap_or(-1)})
             }
